@@ -9,6 +9,7 @@
 #include <jsoncons_ext/msgpack/msgpack.hpp>
 #include <jsoncons_ext/ubjson/ubjson.hpp>
 #include <jsoncons_ext/bson/bson.hpp>
+#include <jsoncons_ext/csv/csv.hpp>
 #include <sstream>
 #include <forward_list>
 #include <memory>
@@ -201,6 +202,24 @@ static void check_json(const std::string& t, Rng& r, bool thorough_small) {
     }
 }
 
+// ------------------------------------------------------------------ CSV deliveries
+static csv::csv_options g_copts; static std::string g_copt_desc;
+static Outcome csv_ref(const std::string& t) { Outcome o; Recorder rec; std::error_code ec; csv::csv_string_reader rd(t, rec, g_copts); rd.read(ec); o.status = ec_name(ec); o.ev = std::move(rec.ev); return norm(o); }
+static Outcome csv_stream(const std::string& t, size_t k) { Outcome o; Recorder rec; std::error_code ec; std::istringstream is(t); csv::csv_stream_reader rd(stream_source<char>(is, k), rec, g_copts); rd.read(ec); o.status = ec_name(ec); o.ev = std::move(rec.ev); return norm(o); }
+template <class Cursor> static Outcome csv_walk(Cursor& cur, std::error_code& ec) { Outcome o; if (!ec) while (!cur.done()) { o.ev.push_back(render(cur.current())); cur.next(ec); if (ec) break; } o.status = ec_name(ec); return norm(o); }
+static Outcome csv_cursor(const std::string& t) { std::error_code ec; csv::csv_string_cursor cur(t, g_copts, ec); return csv_walk(cur, ec); }
+static Outcome csv_cursor_stream(const std::string& t, size_t k) { std::error_code ec; std::istringstream is(t); csv::csv_stream_cursor cur(stream_source<char>(is, k), g_copts, ec); return csv_walk(cur, ec); }
+static void check_csv(const std::string& t, Rng& r, bool all_k) {
+    std::string hx = hex(t);
+    Outcome ref = csv_ref(t);
+    H.count_(ref.status == "ok" ? "csv.inputs_ok" : "csv.inputs_rejected");
+    for (size_t k : chunk_sizes(r, t.size(), t.size() <= 40 && all_k)) {
+        expect_same("csv", "stream-reader", ref, csv_stream(t, k), hx, g_copt_desc + " k=" + std::to_string(k));
+        if (k <= 16 || r.chance(1, 4)) expect_same("csv", "cursor-stream", ref, csv_cursor_stream(t, k), hx, g_copt_desc + " k=" + std::to_string(k));
+    }
+    expect_same("csv", "cursor", ref, csv_cursor(t), hx, g_copt_desc);
+}
+
 // ------------------------------------------------------------------ binary deliveries (generic over format)
 template <class Fmt> struct BinModes {
     static Outcome ref(const std::vector<uint8_t>& b) {
@@ -219,12 +238,23 @@ template <class Fmt> struct BinModes {
         typename Fmt::template reader<iterator_source<It>> rd(iterator_source<It>(fl.begin(), fl.end(), k), rec); rd.read(ec);
         o.status = ec_name(ec); o.ev = std::move(rec.ev); return norm(o);
     }
-    template <class Cursor> static Outcome walkb(Cursor& cur, std::error_code& ec) {
-        Outcome o;
-        if (!ec) while (!cur.done()) { o.ev.push_back(render(cur.current())); cur.next(ec); if (ec) break; }
+    template <class Cursor> static Outcome walkb(Cursor& cur, std::error_code& ec, long read_to_at = -1) {
+        Outcome o; long ncontainer = 0;
+        if (!ec) while (!cur.done()) {
+            const auto& e = cur.current();
+            bool is_begin = e.event_type() == staj_event_type::begin_array || e.event_type() == staj_event_type::begin_object;
+            if (is_begin && ncontainer++ == read_to_at) {
+                Recorder r2; cur.read_to(r2, ec); if (ec) break;
+                for (auto& x : r2.ev) o.ev.push_back(x);
+                if (cur.done()) break;         // read_to may have consumed the whole input
+                cur.next(ec); if (ec) break;   // the cursor rests on the container's end event, which read_to already reported
+                continue;
+            }
+            o.ev.push_back(render(e)); cur.next(ec); if (ec) break;
+        }
         o.status = ec_name(ec); return norm(o);
     }
-    static Outcome cursor(const std::vector<uint8_t>& b) { std::error_code ec; typename Fmt::bytes_cursor cur(b, ec); return walkb(cur, ec); }
+    static Outcome cursor(const std::vector<uint8_t>& b, long read_to_at = -1) { std::error_code ec; typename Fmt::bytes_cursor cur(b, ec); return walkb(cur, ec, read_to_at); }
     static Outcome cursor_stream(const std::vector<uint8_t>& b, size_t k) {
         std::error_code ec; std::string s((const char*)b.data(), b.size()); std::istringstream is(s);
         typename Fmt::template cursor<binary_stream_source> cur(binary_stream_source(is, k), ec); return walkb(cur, ec);
@@ -250,6 +280,11 @@ static void check_bin(const std::vector<uint8_t>& b, Rng& r, bool all_k) {
     }
     for (size_t k : {(size_t)1, (size_t)3, (size_t)(1 + r.below(b.size() + 2))}) expect_same(Fmt::name, "iterator-reader", ref, M::iter(b, k), hx, "k=" + std::to_string(k));
     expect_same(Fmt::name, "cursor", ref, M::cursor(b), hx);
+    // read_to from the k-th container on (every container of small inputs, a sample otherwise): same events as the push parse
+    if (ref.status == "ok") {
+        long ncont = 0; for (auto& e : ref.ev) if (e.size() >= 2 && e[0] == 'B' && (e[1] == 'A' || e[1] == 'O')) ++ncont;
+        for (long k = 0; k < ncont; ++k) { if (ncont > 12 && !r.chance(12, (unsigned)ncont)) continue; expect_same(Fmt::name, "cursor-read_to", ref, M::cursor(b, k), hx, "container=" + std::to_string(k)); }
+    }
 }
 
 template <class Json>
@@ -317,7 +352,27 @@ int main(int argc, char** argv) {
         if (r.chance(1, 6)) g_jopts.lossless_number(true);
         unsigned mode = (unsigned)r.below(10);
         GenCfg g; g.max_depth = 4; g.max_width = 4; g.string_cap = 40;
-        if (mode < 5) {                                 // JSON text
+        if (mode == 4 && r.coin()) {                    // CSV text
+            static const std::vector<std::string> seeds = {"a,b,c\n1,2,3\n4,5,6\n", "\"x,y\",\"q\"\"r\",z\r\n1,,3\r\n", "h1;h2\n1.5;true\nnull;\"multi\nline\"\n", "1,2,3", "a,b\n\"unterminated", "k,v\nx,1;2;3\ny,4\n", "name,n\n\"\xc3\xa9\",-1e3\n\xf0\x9f\x98\x80,0x\n", "\n\na\n\nb\n", "a|b\r1|2\r"};
+            static const std::vector<std::string> dict = {",", ";", "|", "\"", "\"\"", "\n", "\r\n", "\r", " ", "1", "-1.5e3", "true", "null", "a", ",,", "\"\n\"", "\xc3\xa9"};
+            std::string t = r.pick(seeds);
+            for (int i = (int)r.below(4); i > 0 && !t.empty(); --i) switch (r.below(5)) { case 0: t.resize(r.below(t.size())); break; case 1: t.insert(r.below(t.size() + 1), r.pick(dict)); break; case 2: t.erase(r.below(t.size()), 1 + r.below(3)); break; case 3: t += r.pick(dict); break; default: t[r.below(t.size())] = (char)(32 + r.below(95)); }
+            if (t.size() > 400) t.resize(400);
+            for (size_t i = 0; i < t.size() && i < 4; ++i) if (t[i] == 0) { H.count_("csv.excluded_encoding_detection_prefix"); return; }
+            if (t.size() >= 2 && ((unsigned char)t[0] == 0xef || (unsigned char)t[0] == 0xff || (unsigned char)t[0] == 0xfe)) { H.count_("csv.excluded_encoding_detection_prefix"); return; }
+            g_copts = csv::csv_options();
+            static const csv::csv_mapping_kind mk[] = {csv::csv_mapping_kind::n_rows, csv::csv_mapping_kind::n_objects, csv::csv_mapping_kind::m_columns};
+            g_copts.mapping_kind(r.pick(mk)); if (r.coin()) g_copts.assume_header(true); if (r.chance(1, 3)) g_copts.field_delimiter(r.coin() ? ';' : '|'); if (r.chance(1, 4)) g_copts.trim(true); if (r.chance(1, 4)) g_copts.ignore_empty_lines(false);
+            if (r.chance(1, 5)) g_copts.subfield_delimiter(';'); if (r.chance(1, 5)) g_copts.header_lines(1 + r.below(2)); if (r.chance(1, 6)) g_copts.infer_types(false);
+            if (g_copts.mapping_kind() != csv::csv_mapping_kind::n_rows && !g_copts.assume_header() && r.coin()) g_copts.column_names("x,y,z");
+            g_copt_desc = "mapping=" + std::to_string((int)g_copts.mapping_kind()) + " header=" + std::to_string(g_copts.assume_header()) + " delim=" + std::string(1, g_copts.field_delimiter()) + " trim=" + std::to_string(g_copts.trim()) + " ignore_empty=" + std::to_string(g_copts.ignore_empty_lines())
+                + " subfield=" + std::to_string((int)g_copts.subfield_delimiter()) + " header_lines=" + std::to_string(g_copts.header_lines()) + " infer=" + std::to_string(g_copts.infer_types()) + " max_lines=" + std::to_string(g_copts.max_lines()) + " names=" + std::to_string(g_copts.column_names().size());
+            // open finding (witness in the regression catalogue): column mapping with subfields + a text that ends inside a quoted field
+            if (g_copts.mapping_kind() == csv::csv_mapping_kind::m_columns && g_copts.subfield_delimiter() != 0) { size_t q = 0; for (char ch : t) if (ch == '"') ++q; if (q % 2 == 1) { H.count_("csv.excluded_m_columns_text_ending_inside_quotes"); return; } }
+            H.note_distinct(hash_str(t, 77)); set_flight_desc("csv " + hex(t).substr(0, 1500));
+            check_csv(t, r, thorough || c % 4 == 0);
+            if (H.sample_seen < 12 || r.chance(1, 1000)) H.sample(J().str("format", "csv").str("text", t.substr(0, 200)).done()); else ++H.sample_seen;
+        } else if (mode < 5) {                          // JSON text
             std::string t;
             if (r.chance(1, 5)) t = r.pick(stress);
             else {
@@ -346,9 +401,20 @@ int main(int argc, char** argv) {
                 std::vector<double> dv(r.below(20)); for (auto& x : dv) x = gen_double_finite(r);
                 cbor::cbor_options o; o.use_typed_arrays(true); b.clear(); cbor::encode_cbor(dv, b, o);
             }
+            if (f == 0 && r.chance(1, 8)) {             // RFC 8746 typed array of any element type and byte order, alone or inside an array/map
+                unsigned tag = 64 + (unsigned)r.below(24); static const unsigned esz[] = {1, 2, 4, 8, 1, 2, 4, 8, 1, 2, 4, 8, 1, 2, 4, 8, 2, 4, 8, 16, 2, 4, 8, 16};
+                size_t n = r.below(6); std::vector<uint8_t> payload(n * esz[tag - 64]); for (auto& x : payload) x = (uint8_t)r.next();
+                std::vector<uint8_t> ta = {0xd8, (uint8_t)tag}; if (payload.size() < 24) ta.push_back((uint8_t)(0x40 | payload.size())); else { ta.push_back(0x58); ta.push_back((uint8_t)payload.size()); } ta.insert(ta.end(), payload.begin(), payload.end());
+                b.clear(); switch (r.below(3)) { case 0: b = ta; break; case 1: b = {0x83, 0x01}; b.insert(b.end(), ta.begin(), ta.end()); b.push_back(0x61); b.push_back('z'); break; default: b = {0xa1, 0x61, 'k'}; b.insert(b.end(), ta.begin(), ta.end()); }
+                H.count_("cbor.typed_array_inputs");
+            }
             int nm = r.chance(1, 2) ? 0 : 1 + (int)r.below(3);
             for (int i = 0; i < nm; ++i) mutate_bytes(b, r);
             if (b.size() > 2000) b.resize(2000);
+            if (f == 0) {   // multi-dimensional arrays (tag 40 / 1040): the pull cursor flattens them (open finding, witness in the regression catalogue)
+                bool md = false; for (size_t i = 0; i + 1 < b.size(); ++i) if ((b[i] == 0xd8 && b[i + 1] == 0x28) || (i + 2 < b.size() && b[i] == 0xd9 && b[i + 1] == 0x04 && b[i + 2] == 0x10)) md = true;
+                if (md) { H.count_("cbor.excluded_multi_dim_array_tag"); return; }
+            }
             H.note_distinct(fnv1a(b.data(), b.size(), (u64)f));
             set_flight_desc(std::string("bin") + std::to_string(f) + " " + hex(b).substr(0, 1500));
             bool allk = thorough || c % 4 == 0;
@@ -359,6 +425,23 @@ int main(int argc, char** argv) {
     auto regress = [&]() {
         Rng r(3); g_jopts = json_options();
         for (const char* s : stress) { std::string t = s; set_flight_desc("json-stress " + hex(t)); check_json(t, r, true); for (size_t n = 0; n < t.size(); ++n) check_json(t.substr(0, n), r, false); }
+        // witness of an open finding: with max_lines the csv parser stops without closing the open containers (pinned by
+        // test_csv_parser_reinitialization, which closes the array by hand) and in cursor mode it also drops the end event of the last record
+        { std::string t = "a,b\n1,2\n3,4\n"; g_copts = csv::csv_options(); g_copts.max_lines(1); g_copt_desc = "max_lines=1"; set_flight_desc("csv-max_lines-witness");
+          Outcome a = csv_ref(t), c = csv_cursor(t); H.count_("csv.max_lines_witnesses");
+          if (a.key() != c.key()) H.violation("delivery/csv/witness/max_lines-cursor-drops-closing-events", J().str("input", hex(t)).str("reader", a.key().substr(0, 300)).str("cursor", c.key().substr(0, 300)).done()); }
+        // witness of an open finding: with the column mapping and a subfield delimiter a text that ends inside a quoted field is accepted by the reader and
+        // reported as unexpected end of file by the cursor
+        { std::string t = "h1;h2\n1.5;\"t"; g_copts = csv::csv_options(); g_copts.mapping_kind(csv::csv_mapping_kind::m_columns); g_copts.assume_header(true); g_copts.subfield_delimiter(';'); g_copt_desc = "m_columns subfield=;"; set_flight_desc("csv-m_columns-witness");
+          Outcome a = csv_ref(t), c = csv_cursor(t); H.count_("csv.m_columns_witnesses");
+          if (a.key() != c.key()) H.violation("delivery/csv/witness/m_columns-text-ending-inside-quotes-reader-ok-cursor-eof", J().str("input", hex(t)).str("reader", a.key().substr(0, 300)).str("cursor", c.key().substr(0, 300)).done()); }
+        // witness of an open finding: a CBOR multi-dimensional array (tag 40 row-major, 1040 column-major) is reported row by row by the
+        // reader / push parser but as one flat array by the pull cursor (which offers is_multi_dim()/extents() instead)
+        for (auto b : {std::vector<uint8_t>{0xd8, 0x28, 0x82, 0x82, 0x02, 0x02, 0xd8, 0x40, 0x44, 1, 2, 3, 4}, std::vector<uint8_t>{0xd9, 0x04, 0x10, 0x82, 0x82, 0x02, 0x02, 0x84, 1, 2, 3, 4}}) {
+            set_flight_desc("cbor-mdarray-witness " + hex(b));
+            Outcome a = BinModes<FCbor>::ref(b), c = BinModes<FCbor>::cursor(b); H.count_("cbor.multi_dim_witnesses");
+            if (a.key() != c.key()) H.violation("delivery/cbor/witness/multi-dim-array-flattened-by-cursor", J().str("input", hex(b)).str("reader", a.key().substr(0, 300)).str("cursor", c.key().substr(0, 300)).done());
+        }
     };
     H.on_finish = [&]() {
         // suspension states (hook H1) seen at a chunk boundary: "parse/string/number" triples; report the triple count and the distinct parse states
